@@ -441,3 +441,9 @@ func siteName(site ErrSite) string {
 	}
 	return ObjName(site.Callee)
 }
+
+// StoreReachesLoad is storeReachesLoad for rules: is there a path from the store st to the load
+// ld of cell a (same function) on which no other store to a executes?
+func StoreReachesLoad(st *ssa.Store, a *ssa.Alloc, ld *ssa.UnOp) bool {
+	return storeReachesLoad(st, a, ld)
+}
